@@ -23,6 +23,31 @@ BAD_LINES = ["add t0, t1", "addi a0, a0", "lw a0", "foo a0, a1", "mov a0, a1", "
              "li a0, '\\q", ".string \"tail \\", "li a0, '\\u00e9' x", ".ascii \"a\\x\" \"b"]
 
 
+BAD_CHARS = ["@", "$", "+", "[", ";", "é", "!", "~", "]", "*", "=", "`", "\x7f"]
+
+
+def damaged(rng, stmt):
+    """A statement with one character the lexer rejects put at a token boundary: before, after or
+    glued to a token, at every position - in particular right after the points where the parser
+    looks one token ahead (offset of a load/store, the register of jalr, a directive's operands)."""
+    toks = re.findall(r"[^\s,()]+|[(),]", stmt)
+    if not toks:
+        return stmt + " @"
+    i = rng.randrange(len(toks) + 1)
+    c = rng.choice(BAD_CHARS)
+    how = rng.randrange(3)
+    if how == 0 or i == len(toks):
+        toks.insert(i, c)
+    elif how == 1:
+        toks[i] = toks[i] + c
+    else:
+        toks[i] = c + toks[i]
+    out = ""
+    for t in toks:
+        out += t if t in "()," or out.endswith("(") or not out else " " + t
+    return out
+
+
 def one_per_line(rng, n_lines):
     """A file with one statement per line (no multi-line constructs)."""
     lines = []
@@ -84,7 +109,15 @@ def run(res, tier, seed):
     for _ in range(n):
         lines = one_per_line(rng, rng.randrange(3, 14))
         k = rng.randrange(len(lines) + 1)
-        bad = rng.choice(BAD_LINES) if rng.random() < 0.8 else asm.mangle(rng, asm.statement(rng))
+        kb = rng.random()
+        if kb < 0.5:
+            bad = rng.choice(BAD_LINES)
+        elif kb < 0.65:
+            bad = asm.mangle(rng, asm.statement(rng))
+        else:
+            bad = damaged(rng, rng.choice([asm.statement(rng), "lw t0, 4(sp)", "sw t1, 8(sp)", "jalr t0", "jalr t0, 0(t1)",
+                                           "lb a0, 0(a1)", "sh a2, 2(a3)", "jalr ra, t0, 0", ".word 1, 2", "la a0, x",
+                                           "lw t0, 4", "sw t0, 4", "li a0, 'c'", "csrrw t0, 0x300, t1"]))
         if "\n" in bad:
             bad = bad.replace("\n", " ")
         # a line that starts with an immediate (number, character literal) right after a data
